@@ -64,7 +64,7 @@ TWIN = {n: getattr(optree, n).__python_implementation__ for n in PAIRS}
 STRUCTSEQS = [time.struct_time, type(sys.float_info), type(sys.version_info), os.stat_result, type(sys.flags), os.terminal_size,
               type(sys.hash_info), type(sys.thread_info), type(sys.int_info), os.times_result]
 
-SHAPES = ('nt', 'nt_typing', 'nt_sub', 'nt_subsub', 'nt_empty', 'fields_list', 'fields_nonstr', 'fields_strsub', 'no_make',
+SHAPES = ('fields_tuplesub', 'fields_namedtuple_inst', 'nfields_intsub', 'nt', 'nt_typing', 'nt_sub', 'nt_subsub', 'nt_empty', 'fields_list', 'fields_nonstr', 'fields_strsub', 'no_make',
           'no_asdict', 'make_noncallable', 'not_tuple', 'tuple_plain', 'tuple_nfields', 'tuple_nfields_bool', 'meta_fields',
           'meta_none', 'plain')
 
@@ -106,6 +106,14 @@ class StrSub(str):
     pass
 
 
+class TupleSub(tuple):
+    pass
+
+
+class IntSub(int):
+    pass
+
+
 class ServeMeta(type):
     """Metaclass serving namedtuple traits from __getattr__ (a scenario callback)."""
 
@@ -143,6 +151,12 @@ def make_class(shape, n):
         c = type(name, (tuple,), dict(base_attrs, _fields=('a', 1)))
     elif shape == 'fields_strsub':
         c = type(name, (tuple,), dict(base_attrs, _fields=('a', StrSub('b'))))
+    elif shape == 'fields_tuplesub':
+        c = type(name, (tuple,), dict(base_attrs, _fields=TupleSub(('a', 'b'))))
+    elif shape == 'fields_namedtuple_inst':
+        c = type(name, (tuple,), dict(base_attrs, _fields=U.NT1('a', 'b')))
+    elif shape == 'nfields_intsub':
+        c = type(name, (tuple,), {'n_fields': IntSub(2), 'n_sequence_fields': IntSub(2), 'n_unnamed_fields': IntSub(0)})
     elif shape == 'no_make':
         c = type(name, (tuple,), {'_fields': ('a',), '_asdict': lambda self: {}})
     elif shape == 'no_asdict':
